@@ -17,6 +17,17 @@ object is scribbled on), the reference getters without a write, and writes throu
 A twin object receives ONLY the updates of the history: at every point the description of the object under
 test must equal the twin's, and at the sweep points every answer must equal the one of a fresh object built
 from the twin's description (read-only operations never change a later answer).
+
+Values: every setter is also given the value the description already holds there, a scalar that is == to it in
+Python but another document (1 / 1.0 / True, 0 / 0.0 / False, 2 / 2.0), string spellings ("1", "1.0", "True"),
+the falsy ones ("", 0, None); a systematic stream does set(x) - ask everything - set(y) - ask everything for every
+setter x scope and every such pair, and replaces components by bodies that are == the old ones.
+
+Second layer (harness/c08_graph.py, model CacheViews.grun): the same histories on a real experiment graph
+(WorkflowGraph.graphFromFlowIR primitive / replicated / raw, tests.utils.experiment_from_flowir), reads and updates
+through ComponentSpecification (of the graph and of its replicate()/primitive() sibling), the node accessors,
+WorkflowGraph, FlowIRExperimentConfiguration, Job and FlowIRConcrete; after every read the answer must be the
+corresponding part of a from-scratch resolution of the current description.
 """
 from __future__ import annotations
 
@@ -25,7 +36,11 @@ import json
 import logging
 import sys
 
+import shutil
+import tempfile
+
 from harness import c04 as K
+from harness import c08_graph as GL
 from harness.common import shrink_list, canon
 
 FUEL = 400
@@ -34,9 +49,74 @@ PLAIN_NAMES = ["c0", "c1", "d", "c", "c00"]
 META_NAMES = ["a+b", "a.b", "x*", "a?b", "a|b", "x(y", "[ab]", "a{2}", "c$", "a\\d"]
 VARS = ["x", "y", "g", "s"]
 VALUES = ["1", "2", "vv", 7, True, "%(x)s", "%(g)s", "%(s)s-%(g)s", "", 2.5, "%(nowhere)s"]
+# values that compare equal in Python (1 == 1.0 == True, 0 == 0.0 == False, hash-equal too) but are different
+# scalars of the description (different repr, different text after interpolation), their string spellings, the
+# falsy ones, and None: a setter must never take `new == old` for "nothing changes"
+EQ_CLASSES = [[0, 0.0, False], [1, 1.0, True], [2, 2.0], [-1, -1.0]]
+EDGE_VALUES = [0, 0.0, False, "", "0", 1, 1.0, True, "1", "1.0", "True", None, "False", "0.0", 2, 2.0, "None", -1, -1.0]
 ROUTES = ["#command.arguments", "#command.environment", "#command.executable", "#resourceRequest.numberProcesses",
-          "#workflowAttributes.replicate", "#resourceManager.config.backend", "x", "y", "#variables.x"]
+          "#workflowAttributes.replicate", "#resourceManager.config.backend", "x", "y", "#variables.x",
+          "#variables.y", "#workflowAttributes.maxRestarts", "#workflowAttributes.aggregate",
+          "#resourceManager.config.walltime", "#resourceRequest.memory"]
 ROUTE_VALUES = ["-a %(x)s", "%(g)s", "plain", 3, "4", "%(y)s", None, ["in:ref"]]
+
+
+def twin_values(v):
+    """the other scalars that compare (and hash) equal to `v` in Python but are written differently"""
+    if isinstance(v, (bool, int, float)):
+        for cls in EQ_CLASSES:
+            if any(v == w for w in cls):
+                return [w for w in cls if repr(w) != repr(v)]
+    return []
+
+
+def pick_value(rng, cur, slot, pool):
+    """value for a setter call on `slot` (what the description holds there now is `cur[slot]`, if known):
+    the same value again, a scalar that is == but not the same, an edge value, or one of the ordinary pool"""
+    r = rng.random()
+    if slot in cur and r < 0.30:
+        tw = twin_values(cur[slot])
+        v = rng.choice(tw) if tw and rng.random() < 0.8 else cur[slot]
+    elif r < 0.55:
+        v = rng.choice(EDGE_VALUES)
+    else:
+        v = rng.choice(pool)
+    cur[slot] = v
+    return copy.deepcopy(v)
+
+
+def initial_slots(doc):
+    cur = {}
+    for P, b in doc["variables"].items():
+        for k, v in (b.get("global") or {}).items():
+            cur[("glob", P, k)] = v
+        for i, vs in (b.get("stages") or {}).items():
+            for k, v in (vs or {}).items():
+                cur[("stage", P, i, k)] = v
+    for c in doc["components"]:
+        note_body(cur, c)
+    return cur
+
+
+def note_body(cur, c):
+    i, n = c["stage"], c["name"]
+    for k in [s for s in cur if s[0] in ("comp", "opt") and s[1:3] == (i, n)]:
+        del cur[k]
+    for k, v in c.get("variables", {}).items():
+        cur[("comp", i, n, k)] = v
+    for sec in ("command", "resourceRequest", "workflowAttributes"):
+        for k, v in (c.get(sec) or {}).items():
+            cur[("opt", i, n, "#%s.%s" % (sec, k))] = v
+    for k, v in ((c.get("resourceManager") or {}).get("config") or {}).items():
+        cur[("opt", i, n, "#resourceManager.config.%s" % k)] = v
+
+
+def route_slot(i, n, route):
+    if "#" not in route:
+        return ("comp", i, n, route)
+    if route.startswith("#variables."):
+        return ("comp", i, n, route[len("#variables."):])
+    return ("opt", i, n, route)
 
 
 def _F():
@@ -47,13 +127,17 @@ def body(name, stage, rng=None, flavour=0):
     b = {"stage": stage, "name": name,
          "command": {"executable": "echo", "arguments": ["%(x)s %(g)s", "%(x)s", "%(s)s/%(g)s", "lit"][flavour % 4]},
          "variables": {"x": "X%d" % flavour}, "references": []}
+    # numbers / booleans as they come out of a YAML file (1, 1.0 and true are three different documents)
+    b["variables"]["y"] = [1, 0, 1.0, True, False, 0.0, "1", 2][flavour % 8]
+    if flavour % 4 == 3:
+        b["command"]["arguments"] = "lit %(y)s"
     if flavour % 4 == 2:
         # options of sections that only the stage-scoped blueprints mention
         b["resourceManager"] = {"config": {"walltime": 5 + flavour}}
         b["workflowAttributes"] = {"maxRestarts": flavour}
     if flavour % 3 == 1:
         b["resourceRequest"] = {"numberProcesses": "%(x)s" if flavour % 2 else 2}
-        b["variables"]["x"] = "3"
+        b["variables"]["x"] = "3" if flavour % 4 else 1
     if flavour % 5 == 2:
         b["override"] = {"p": {"command": {"arguments": "on-p %(g)s"}, "variables": {"x": "XP"}}}
     return b
@@ -83,8 +167,10 @@ def gen_history(rng, length, meta):
     names = rng.sample(pool, 3) if not meta else rng.sample(META_NAMES, 2) + rng.sample(PLAIN_NAMES, 1)
     doc = base_doc(names)
     live = {n: k % 2 for k, n in enumerate(names)}
+    cur = initial_slots(doc)
     ops = []
     flav = 3
+    val = lambda slot: pick_value(rng, cur, slot, VALUES)
     for _ in range(length):
         kind = rng.choice(["setVar", "setVar", "delVar", "setOption", "setOption", "removeOption", "setGlobalVar",
                            "setStageVar", "setPlatGlobalVar", "setPlatStageVar", "addComp", "updateComp", "deleteComp",
@@ -97,23 +183,33 @@ def gen_history(rng, length, meta):
         else:
             target = rng.choice(known)
         n, i = target
-        if kind == "setVar":
-            ops.append({"op": kind, "stage": i, "name": n, "var": rng.choice(VARS), "value": rng.choice(VALUES)})
+        if kind in ("setVar", "setVarViaRef"):
+            v = rng.choice(VARS)
+            ops.append({"op": kind, "stage": i, "name": n, "var": v, "value": val(("comp", i, n, v))})
         elif kind == "delVar":
-            ops.append({"op": kind, "stage": i, "name": n, "var": rng.choice(VARS)})
+            v = rng.choice(VARS)
+            cur.pop(("comp", i, n, v), None)
+            ops.append({"op": kind, "stage": i, "name": n, "var": v})
         elif kind == "setOption":
-            ops.append({"op": kind, "stage": i, "name": n, "route": rng.choice(ROUTES), "value": rng.choice(ROUTE_VALUES)})
+            route = rng.choice(ROUTES)
+            ops.append({"op": kind, "stage": i, "name": n, "route": route,
+                        "value": pick_value(rng, cur, route_slot(i, n, route), ROUTE_VALUES)})
         elif kind == "removeOption":
-            ops.append({"op": kind, "stage": i, "name": n, "route": rng.choice(ROUTES)})
+            route = rng.choice(ROUTES)
+            cur.pop(route_slot(i, n, route), None)
+            ops.append({"op": kind, "stage": i, "name": n, "route": route})
         elif kind == "setGlobalVar":
-            ops.append({"op": kind, "var": rng.choice(VARS), "value": rng.choice(VALUES)})
+            v = rng.choice(VARS)
+            ops.append({"op": kind, "var": v, "value": val(("glob", "default", v))})
         elif kind == "setStageVar":
-            ops.append({"op": kind, "stage": rng.choice([0, 1, 1, 2]), "var": rng.choice(VARS), "value": rng.choice(VALUES)})
-        elif kind == "setPlatGlobalVar":
-            ops.append({"op": kind, "platform": rng.choice(PLATFORMS), "var": rng.choice(VARS), "value": rng.choice(VALUES)})
+            st, v = rng.choice([0, 1, 1, 2]), rng.choice(VARS)
+            ops.append({"op": kind, "stage": st, "var": v, "value": val(("stage", "default", st, v))})
+        elif kind in ("setPlatGlobalVar", "setGlobalVarViaRef"):
+            P, v = rng.choice(PLATFORMS), rng.choice(VARS)
+            ops.append({"op": kind, "platform": P, "var": v, "value": val(("glob", P, v))})
         elif kind == "setPlatStageVar":
-            ops.append({"op": kind, "platform": rng.choice(PLATFORMS), "stage": rng.choice([0, 1, 2]),
-                        "var": rng.choice(VARS), "value": rng.choice(VALUES)})
+            P, st, v = rng.choice(PLATFORMS), rng.choice([0, 1, 2]), rng.choice(VARS)
+            ops.append({"op": kind, "platform": P, "stage": st, "var": v, "value": val(("stage", P, st, v))})
         elif kind == "addComp":
             n2 = rng.choice(pool)
             i2 = rng.choice([0, 1])
@@ -121,9 +217,12 @@ def gen_history(rng, length, meta):
             ops.append({"op": kind, "stage": i2, "name": n2, "body": body(n2, i2, flavour=flav)})
             if n2 not in live:
                 live[n2] = i2
+                note_body(cur, ops[-1]["body"])
         elif kind == "updateComp":
             flav += 1
             ops.append({"op": kind, "stage": i, "name": n, "body": body(n, i, flavour=flav)})
+            if live.get(n) == i:
+                note_body(cur, ops[-1]["body"])
         elif kind == "deleteComp":
             ops.append({"op": kind, "stage": i, "name": n})
             if live.get(n) == i:
@@ -139,14 +238,85 @@ def gen_history(rng, length, meta):
             ops.append({"op": kind, "stage": i, "name": n})
         elif kind == "touchVars":
             ops.append({"op": kind, "platform": rng.choice(PLATFORMS), "stage": rng.choice([None, 0, 1])})
-        elif kind == "setVarViaRef":
-            ops.append({"op": kind, "stage": i, "name": n, "var": rng.choice(VARS), "value": rng.choice(VALUES)})
-        elif kind == "setGlobalVarViaRef":
-            ops.append({"op": kind, "platform": rng.choice(PLATFORMS), "var": rng.choice(VARS), "value": rng.choice(VALUES)})
         else:
             ops.append({"op": "sweep"})
     ops.append({"op": "sweep"})
     return {"kind": "history", "meta": meta, "doc": doc, "ops": ops}
+
+
+def setter_op(kind, i, n, v, P, value):
+    """one call of the setter `kind` that writes `value` to variable / option `v`"""
+    if kind in ("setVar", "setVarViaRef"):
+        return {"op": kind, "stage": i, "name": n, "var": v, "value": value}
+    if kind == "setOption":
+        return {"op": kind, "stage": i, "name": n, "route": v, "value": value}
+    if kind == "setGlobalVar":
+        return {"op": kind, "var": v, "value": value}
+    if kind == "setStageVar":
+        return {"op": kind, "stage": i, "var": v, "value": value}
+    if kind in ("setPlatGlobalVar", "setGlobalVarViaRef"):
+        return {"op": kind, "platform": P, "var": v, "value": value}
+    if kind == "setPlatStageVar":
+        return {"op": kind, "platform": P, "stage": i, "var": v, "value": value}
+    raise ValueError(kind)
+
+
+SETTER_SITES = [("setVar", "x"), ("setVar", "y"), ("setVar", "g"), ("setVarViaRef", "x"), ("setOption", "x"),
+                ("setOption", "#variables.x"), ("setOption", "#command.arguments"),
+                ("setOption", "#resourceRequest.numberProcesses"), ("setOption", "#workflowAttributes.maxRestarts"),
+                ("setOption", "#workflowAttributes.replicate"), ("setOption", "#resourceManager.config.walltime"),
+                ("setGlobalVar", "g"), ("setGlobalVar", "x"), ("setStageVar", "s"), ("setStageVar", "g"),
+                ("setPlatGlobalVar", "g"), ("setPlatGlobalVar", "s"), ("setGlobalVarViaRef", "g"),
+                ("setPlatStageVar", "s"), ("setPlatStageVar", "g")]
+
+
+def value_pairs():
+    """(x, y): y is x again, or == x in Python with another spelling, or its string spelling, or a falsy cousin"""
+    out = []
+    for cls in EQ_CLASSES:
+        for x in cls:
+            for y in cls:
+                out.append((x, y))
+    out += [("1", "1"), ("1", 1), (1, "1"), ("1.0", 1.0), (True, "True"), ("", None), (None, ""), (None, None),
+            (0, ""), ("", 0), (False, None), (None, 0), ("0", 0), ("vv", "vv")]
+    return out
+
+
+def twin_tree(rng, tree):
+    """the same tree under Python's ==, every number / boolean that has one replaced by an equal scalar of another type"""
+    if isinstance(tree, dict):
+        return {k: (v if k in ("stage", "name") else twin_tree(rng, v)) for k, v in tree.items()}
+    if isinstance(tree, list):
+        return [twin_tree(rng, v) for v in tree]
+    tw = twin_values(tree)
+    return rng.choice(tw) if tw else tree
+
+
+def gen_equal_resets(rng, per_site):
+    """systematic stream: set(x) - ask everything - set(y) - ask everything, y equal to x in some sense
+    (identical, == with another type, string spelling), for every setter and scope"""
+    names = ["c0", "c1", "d"]
+    pairs = value_pairs()
+    out = []
+    for kind, v in SETTER_SITES:
+        chosen = pairs if per_site is None else rng.sample(pairs, per_site)
+        for (x, y) in chosen:
+            k = rng.randrange(len(names))
+            i, n = k % 2, names[k]
+            P = rng.choice(PLATFORMS)
+            ops = [setter_op(kind, i, n, v, P, x), {"op": "sweep"}, setter_op(kind, i, n, v, P, y), {"op": "sweep"}]
+            if rng.random() < 0.3:
+                ops.insert(0, {"op": "sweep"})
+            out.append({"kind": "history", "meta": False, "doc": base_doc(names), "ops": ops})
+    # replacing a component by a body that is == the old one (1 -> 1.0 -> True inside it)
+    doc = base_doc(names + ["c00", "c"])
+    for c in doc["components"]:
+        b2 = twin_tree(rng, c)
+        if b2 == c and canon(K.to_json(b2)) != canon(K.to_json(c)):
+            out.append({"kind": "history", "meta": False, "doc": doc, "ops": [
+                {"op": "sweep"}, {"op": "updateComp", "stage": c["stage"], "name": c["name"], "body": b2},
+                {"op": "sweep"}]})
+    return out
 
 
 def gen_triples(rng, repeat):
@@ -335,6 +505,236 @@ def run_history(case, want_model_ops=True):
     return desc, flat, answers, failures
 
 
+# ----------------------------------------------------------------------------------------
+# second layer: histories on a real experiment graph (objects and views: harness/c08_graph.py)
+# ----------------------------------------------------------------------------------------
+
+CONCRETE_KINDS = ["setVar", "setVar", "delVar", "setOption", "setOption", "removeOption", "setGlobalVar", "setStageVar",
+                  "setPlatGlobalVar", "setPlatStageVar", "updateComp", "setVarViaRef", "setGlobalVarViaRef",
+                  "touchComp", "touchVars", "read"]
+
+
+def world_entries(params):
+    return ["spec", "specSibling", "node", "graph", "conf", "concrete"] + (["job"] if params["mode"] == "experiment" else [])
+
+
+def gen_view(rng, params, i, n):
+    e = rng.choice(world_entries(params))
+    if e in ("spec", "specSibling"):
+        what = rng.choice(GL.SPEC_VIEWS)
+    elif e == "job":
+        what = rng.choice(GL.JOB_VIEWS)
+    elif e in ("graph", "conf"):
+        what = rng.choice(["configuration", "configuration", "references"])
+    else:
+        what = "configuration"
+    flags = None
+    if e in GL.FREE_FLAG_ENTRIES or e == "node":
+        flags = dict(rng.choice(K.ALL_FLAGS)) if rng.random() < 0.5 else \
+            {"raw": not params["substitute"], "incl": True, "prim": params["primitive"], "inject": True}
+    return {"op": "view", "entry": e, "what": what, "stage": i, "name": n, "flags": flags}
+
+
+def gen_update(rng, params, cur, i, n, flav, entry=None, kind=None):
+    e = entry or rng.choice(world_entries(params))
+    # a replicated graph of the default platform is built on a flattened description: `p` no longer exists there
+    plats = PLATFORMS if (params["primitive"] and params["mode"] == "graph") or params["platform"] == "p" else ["default"]
+    val = lambda slot: pick_value(rng, cur, slot, VALUES)
+    if e != "concrete":
+        kind = kind or rng.choice(["setOption", "setOption", "setOption", "removeOption"])
+        if e == "node":
+            kind = "setOption"
+        route = rng.choice(GL.GROUTES)
+        if kind == "setOption":
+            u = {"op": kind, "stage": i, "name": n, "route": route,
+                 "value": pick_value(rng, cur, route_slot(i, n, route), GL.route_pool(route, VALUES))}
+        else:
+            cur.pop(route_slot(i, n, route), None)
+            u = {"op": kind, "stage": i, "name": n, "route": route}
+        op = {"op": "via", "entry": e, "u": u}
+        if e == "job":
+            op["alt"] = rng.random() < 0.4
+        return op
+    kind = kind or rng.choice(CONCRETE_KINDS)
+    if kind in ("setVar", "setVarViaRef"):
+        v = rng.choice(GL.GVARS)
+        u = {"op": kind, "stage": i, "name": n, "var": v, "value": val(("comp", i, n, v))}
+    elif kind == "delVar":
+        v = rng.choice(GL.GVARS)
+        cur.pop(("comp", i, n, v), None)
+        u = {"op": kind, "stage": i, "name": n, "var": v}
+    elif kind == "setOption":
+        route = rng.choice(GL.GROUTES)
+        u = {"op": kind, "stage": i, "name": n, "route": route,
+             "value": pick_value(rng, cur, route_slot(i, n, route), GL.route_pool(route, VALUES))}
+    elif kind == "removeOption":
+        route = rng.choice(GL.GROUTES)
+        cur.pop(route_slot(i, n, route), None)
+        u = {"op": kind, "stage": i, "name": n, "route": route}
+    elif kind == "setGlobalVar":
+        v = rng.choice(GL.GVARS)
+        u = {"op": kind, "var": v, "value": val(("glob", "default", v))}
+    elif kind == "setStageVar":
+        st, v = rng.choice([0, 1]), rng.choice(GL.GVARS)
+        u = {"op": kind, "stage": st, "var": v, "value": val(("stage", "default", st, v))}
+    elif kind in ("setPlatGlobalVar", "setGlobalVarViaRef"):
+        P, v = rng.choice(plats), rng.choice(GL.GVARS)
+        u = {"op": kind, "platform": P, "var": v, "value": val(("glob", P, v))}
+    elif kind == "setPlatStageVar":
+        P, st, v = rng.choice(plats), rng.choice([0, 1]), rng.choice(GL.GVARS)
+        u = {"op": kind, "platform": P, "stage": st, "var": v, "value": val(("stage", P, st, v))}
+    elif kind == "updateComp":
+        u = {"op": kind, "stage": i, "name": n, "body": GL.gbody(n, i, flavour=flav)}
+        note_body(cur, u["body"])
+    elif kind == "touchComp":
+        u = {"op": kind, "stage": i, "name": n}
+    elif kind == "touchVars":
+        u = {"op": kind, "platform": rng.choice(plats), "stage": rng.choice([None, 0, 1])}
+    else:
+        u = K.gen_read(rng, list(GL.NODES), plats)
+    return {"op": "via", "entry": "concrete", "u": u}
+
+
+def gen_opaque(rng, i, n):
+    what = rng.choice(GL.OPAQUE)
+    op = {"op": "opaque", "what": what, "stage": i, "name": n}
+    return op
+
+
+def gen_ghistory(rng, length, params=None):
+    params = dict(params or rng.choice(GL.WORLDS))
+    doc = GL.gdoc()
+    cur = initial_slots(doc)
+    ops = []
+    flav = 3
+    for _ in range(length):
+        i, n = rng.choice(GL.NODES)
+        r = rng.random()
+        if r < 0.42:
+            ops.append(gen_view(rng, params, i, n))
+        elif r < 0.77:
+            flav += 1
+            ops.append(gen_update(rng, params, cur, i, n, flav))
+        elif r < 0.87 and params["mode"] == "graph":
+            ops.append(gen_opaque(rng, i, n))
+        else:
+            ops.append({"op": "gsweep"})
+    ops.append({"op": "gsweep"})
+    return {"kind": "ghistory", "world": params, "doc": doc, "ops": ops}
+
+
+def gen_gtriples(rng, worlds):
+    """systematic stream on the graph layer: every object asked about everything - ONE update through one object -
+    every object asked again; every object x every kind of update it offers"""
+    out = []
+    for params in worlds:
+        sites = [(e, k) for e in world_entries(params) if e != "concrete" for k in ("setOption", "removeOption")
+                 if not (e == "node" and k == "removeOption")]
+        sites += [("concrete", k) for k in sorted(set(CONCRETE_KINDS)) if k not in ("read",)]
+        for e, k in sites:
+            doc = GL.gdoc()
+            cur = initial_slots(doc)
+            i, n = rng.choice(GL.NODES)
+            out.append({"kind": "ghistory", "world": dict(params), "doc": doc,
+                        "ops": [{"op": "gsweep"}, gen_update(rng, params, cur, i, n, rng.randint(4, 12), entry=e, kind=k),
+                                {"op": "gsweep"}]})
+    return out
+
+
+def view_model_op(op, flags):
+    return dict({"op": "view", "entry": op["entry"], "view": GL.SECTIONS[op["what"]], "stage": op["stage"],
+                 "name": op["name"]}, **flags)
+
+
+def run_ghistory(case):
+    """runs a graph-layer history on the real objects; returns (desc, platform, model ops, answers, failures)"""
+    F = _F()
+    scratch = tempfile.mkdtemp(prefix="c08g-")
+    try:
+        world = GL.World(case["world"], case["doc"], scratch)
+        conc = world.conc
+        desc = K.desc_of(conc)
+        twin = F.FlowIRConcrete(conc.raw(), world.platform, {})           # receives the updates only, plainly
+        twin_norm = K.desc_norm(twin)
+        flat, answers, failures = [], [], []
+        state = {"fresh": None, "rebuilt": None}
+
+        def fresh():
+            if state["fresh"] is None:
+                state["fresh"] = F.FlowIRConcrete(conc.raw(), world.platform, {})
+            return state["fresh"]
+
+        def rebuilt():
+            if state["rebuilt"] is None:
+                try:
+                    state["rebuilt"] = GL.rebuild(world)
+                except Exception as exc:
+                    state["rebuilt"] = type(exc).__name__       # the description no longer validates: no reference
+            return state["rebuilt"]
+
+        def one(op):
+            keep = []
+            if op["op"] == "view":
+                flags = GL.effective_flags(world, op)
+                a = GL.do_view(world, op, keep)
+                route = GL.SECTIONS[op["what"]]
+                i, n = op["stage"], op["name"]
+                try:
+                    ref = GL.wrap(lambda: GL._lookup(fresh().get_component_configuration((i, n), **K.flag_kwargs(flags)),
+                                                     route))
+                except Exception as exc:
+                    failures.append(("description-cannot-be-reloaded", {"error": type(exc).__name__, "before": op}))
+                    ref = a
+                if canon(coarse(a)) != canon(coarse(ref)):
+                    failures.append(("view-differs-from-from-scratch-resolution",
+                                     {"view": op, "flags": flags, "answer": a, "from_scratch": ref,
+                                      "difference": K.first_difference(ref, a)}))
+                flat.append(view_model_op(op, flags))
+                answers.append(a)
+            elif op["op"] == "opaque":
+                a = GL.do_opaque(world.wg, op, keep)
+                ref_world = rebuilt()
+                if not isinstance(ref_world, str):
+                    ref = GL.do_opaque(ref_world, op, keep)
+                    if canon(coarse(a)) != canon(coarse(ref)):
+                        failures.append(("view-differs-from-a-graph-rebuilt-from-the-current-description",
+                                         {"view": op, "answer": a, "rebuilt": ref,
+                                          "difference": K.first_difference(ref, a)}))
+                flat.append({"op": "via", "entry": "graph", "u": {"op": "read"}})
+                answers.append({"ok": None})
+            elif op["op"] == "via":
+                u = op["u"]
+                a = GL.do_update(world, op, apply_op)
+                if u["op"] not in READ_ONLY:
+                    b = apply_op(twin, u)
+                    state["fresh"] = state["rebuilt"] = None
+                    if canon(coarse(a)) != canon(coarse(b)):
+                        failures.append(("update-through-an-object-answers-differently-from-the-plain-mutator",
+                                         {"op": op, "answer": a, "plain": b}))
+                now = K.desc_norm(conc)
+                if now != K.desc_norm(twin):
+                    failures.append(("description-differs-from-the-same-updates-made-through-FlowIRConcrete",
+                                     {"after": op, "difference": K.first_difference(K.desc_norm(twin), now)}))
+                    twin_new = F.FlowIRConcrete(conc.raw(), world.platform, {})
+                    twin.__dict__.update(twin_new.__dict__)
+                flat.append({"op": "via", "entry": op["entry"], "u": model_ops([u])[0]})
+                answers.append(a)
+            else:
+                raise ValueError(op["op"])
+            for r in keep:
+                scramble(r)
+
+        for op in case["ops"]:
+            if op["op"] == "gsweep":
+                for q in GL.sweep_ops(world, opaque=case["world"]["mode"] == "graph"):
+                    one(q)
+            else:
+                one(op)
+        return desc, world.platform, flat, answers, failures
+    finally:
+        shutil.rmtree(scratch, ignore_errors=True)
+
+
 RESOLUTION_ERRORS = {"unknown-variable", "invalid-variable", "incomplete-variable", "invalid-type", "recursion"}
 
 
@@ -370,17 +770,63 @@ def model_ops(flat):
 
 def stale(case):
     try:
+        if case.get("kind") == "ghistory":
+            return bool(run_ghistory(case)[4])
         return bool(run_history(case)[3])
     except Exception:
         return False
 
 
 def shrinker(what, case):
+    if case.get("kind") == "ghistory":
+        ops = shrink_list(case["ops"], lambda ops: stale(dict(case, ops=list(ops))), max_steps=80)
+        small = dict(case, ops=list(ops))
+        # a sweep asks ~100 questions: try to do with the single views that fail
+        for k, op in enumerate(small["ops"]):
+            if op["op"] != "gsweep":
+                continue
+            try:
+                scratch = tempfile.mkdtemp(prefix="c08g-")
+                world = GL.World(small["world"], small["doc"], scratch)
+                qs = GL.sweep_ops(world, opaque=small["world"]["mode"] == "graph")
+            except Exception:
+                continue
+            finally:
+                shutil.rmtree(scratch, ignore_errors=True)
+            head, tail = small["ops"][:k], small["ops"][k + 1:]
+            qs = shrink_list(qs, lambda q: stale(dict(small, ops=head + list(q) + tail)), max_steps=60)
+            cand = dict(small, ops=head + list(qs) + tail)
+            if stale(cand):
+                return shrinker_tail(cand)
+        return small
     ops = shrink_list(case["ops"], lambda ops: stale(dict(case, ops=list(ops) + [{"op": "sweep"}])), max_steps=150)
     small = dict(case, ops=list(ops) + [{"op": "sweep"}])
     comps = shrink_list(small["doc"]["components"],
                         lambda cs: stale(dict(small, doc=dict(small["doc"], components=list(cs)))), max_steps=20)
     return dict(small, doc=dict(small["doc"], components=list(comps)))
+
+
+def shrinker_tail(case):
+    """expand the remaining sweeps of a graph-layer history one at a time (bounded)"""
+    for _ in range(3):
+        if not any(o["op"] == "gsweep" for o in case["ops"]):
+            break
+        k = next(k for k, o in enumerate(case["ops"]) if o["op"] == "gsweep")
+        scratch = tempfile.mkdtemp(prefix="c08g-")
+        try:
+            world = GL.World(case["world"], case["doc"], scratch)
+            qs = GL.sweep_ops(world, opaque=case["world"]["mode"] == "graph")
+        except Exception:
+            break
+        finally:
+            shutil.rmtree(scratch, ignore_errors=True)
+        head, tail = case["ops"][:k], case["ops"][k + 1:]
+        qs = shrink_list(qs, lambda q: stale(dict(case, ops=head + list(q) + tail)), max_steps=60)
+        cand = dict(case, ops=head + list(qs) + tail)
+        if not stale(cand):
+            break
+        case = cand
+    return case
 
 
 def has_meta(s):
@@ -397,15 +843,55 @@ def classify_regex_name(what, case, detail):
 CLASSIFIERS = {"c08_component_name_with_regex_metacharacters": classify_regex_name}
 
 
+def check_ghistory(ctx, case, flat, answers, failures, mo):
+    ops = case["ops"]
+    upd = [k for k, o in enumerate(ops) if o["op"] == "via" and o["u"]["op"] not in READ_ONLY]
+    # non-trivial: an update through one object with a read (or sweep) before it and a read (or sweep) after it
+    nontrivial = any(any(o["op"] in ("view", "gsweep", "opaque") for o in ops[:k]) and
+                     any(o["op"] in ("view", "gsweep", "opaque") for o in ops[k + 1:]) for k in upd)
+    w = case["world"]
+    tags = ["gworld:%s/%s/%s/%s" % (w["mode"], "primitive" if w["primitive"] else "replicated", w["platform"] or "default",
+                                    "substitute" if w["substitute"] else "raw")]
+    tags += ["gupdate:%s:%s" % (o["entry"], o["u"]["op"]) for o in ops if o["op"] == "via"]
+    tags += ["gview:%s:%s" % (o["entry"], o["what"]) for o in ops if o["op"] == "view"]
+    tags += ["gopaque:" + o["what"] for o in ops if o["op"] == "opaque"]
+    tags += ["ganswer:" + (a.get("error") or "ok") for a in answers]
+    ctx.case(case, nontrivial=nontrivial, tags=tags)
+    for what, detail in failures:
+        ctx.fail(what, case, detail)
+    if mo is None:
+        return
+    manswers = [coarse(a) for a in mo["answers"]]
+    answers = [coarse(a) for a in answers]
+    if any(a.get("error") == "unsupported" for a in manswers):
+        ctx.tag("model:unsupported")
+        return
+    first = next((k for k, (m, a) in enumerate(zip(manswers, answers)) if canon(m) != canon(a)), None)
+    if first is None:
+        ctx.compare("experiment graph history == CacheViews.grun", case, {"agree": True}, {"agree": True})
+    else:
+        ctx.compare("experiment graph history == CacheViews.grun", case,
+                    {"agree": True, "index": first, "op": flat[first], "answer": manswers[first]},
+                    {"agree": False, "index": first, "op": flat[first], "answer": answers[first]})
+
+
 def check_histories(ctx, cases):
     runs = []
     reqs = []
     for case in cases:
+        if case.get("kind") == "ghistory":
+            desc, platform, flat, answers, failures = run_ghistory(case)
+            runs.append((flat, answers, failures))
+            reqs.append({"op": "grun", "desc": desc, "platform": platform, "fuel": FUEL, "ops": flat})
+            continue
         desc, flat, answers, failures = run_history(case)
         runs.append((flat, answers, failures))
         reqs.append({"op": "run", "desc": desc, "fuel": FUEL, "ops": model_ops(flat)})
     mouts = ctx.model(reqs)
     for case, (flat, answers, failures), mo in zip(cases, runs, mouts or [None] * len(cases)):
+        if case.get("kind") == "ghistory":
+            check_ghistory(ctx, case, flat, answers, failures, mo)
+            continue
         kinds = sorted({o["op"] for o in case["ops"]})
         muts = [o for o in case["ops"] if o["op"] not in READ_ONLY + ("sweep",)]
         triple = case["ops"][0]["op"] == "sweep" and len(muts) == 1
@@ -450,11 +936,28 @@ def run(ctx):
                 "metacharacters; plus a systematic stream 'populate the cache everywhere - ONE update - ask everything "
                 "again' over every kind of update (variable setters: every variable x platform x stage; component "
                 "updates: every component); non-trivial = (>= 2 mutators or the systematic pattern) and a read-only "
-                "operation before the end; distinct by canonical JSON of the history.")
+                "operation before the end; distinct by canonical JSON of the history.  Setter values include the "
+                "value already there, ==-equal scalars of another type (1/1.0/True, 0/0.0/False), their string "
+                "spellings and the falsy ones; a systematic stream 'set(x) - ask everything - set(y) - ask everything' "
+                "covers every setter x scope x such pair and component replacement by an ==-equal body.  Second layer: "
+                "histories on a real experiment graph (7 worlds: graphFromFlowIR primitive/replicated x platform, raw, "
+                "experiment_from_flowir x platform) mixing reads and updates through ComponentSpecification (own and "
+                "sibling graph), node accessors, WorkflowGraph, FlowIRExperimentConfiguration, Job, FlowIRConcrete; "
+                "every read compared with the matching part of a from-scratch resolution, sweeps ask every object "
+                "about every node, systematic 'sweep - ONE update through object E - sweep' for every object x update "
+                "kind; non-trivial there = an update with a read before and a read after it.")
     ctx.assumptions = ["mutators are called on the existing platforms (default, p) only",
                        "update_component is given a body with the same (stage, name)",
-                       "values are strings / integers / booleans / floats / None / short lists"]
+                       "values are strings / integers / booleans / floats / None / short lists",
+                       "graph layer: components are not added / deleted (the graph's node set is fixed), "
+                       "#workflowAttributes.repeatInterval / isRepeat and #command.interpreter are not driven (isRepeat is "
+                       "re-derived from repeatInterval when a description is loaded, so raw() is not a fixed point of "
+                       "loading for them; the interpreter digest is outside the Lean resolver)"]
     ctx.trusted.append("C08: aliasing ('private copy') is decided by the harness only (scramble + re-query)")
+    ctx.trusted.append("C08 graph layer: which keyword arguments each view of graph.py / conf.py / data.py passes to "
+                       "get_component_configuration is written down in harness/c08_graph.py (fixed_flags, SECTIONS) and "
+                       "confirmed on every read by the from-scratch comparison; environment / command line / isReplicating "
+                       "/ isAggregating are compared with a graph rebuilt from raw() and are opaque to the model")
     ctx.shrinker = shrinker
     cases = []
     n_plain, n_meta = (45, 15) if quick else (260, 60)
@@ -463,6 +966,11 @@ def run(ctx):
     for k in range(n_meta):
         cases.append(gen_history(rng, rng.randint(5, 30 if quick else 120), True))
     cases.extend(gen_triples(rng, 1 if quick else 4))
+    cases.extend(gen_equal_resets(rng, 6 if quick else None))
+    # second layer: the same question through every object of a real experiment graph
+    for k in range(35 if quick else 120):
+        cases.append(gen_ghistory(rng, rng.randint(4, 25 if quick else 60), GL.WORLDS[k % len(GL.WORLDS)]))
+    cases.extend(gen_gtriples(rng, [rng.choice(GL.WORLDS[:5]), rng.choice(GL.WORLDS[5:])] if quick else GL.WORLDS))
     # minimal regression inputs (corpus, inline): the read-before-write staleness pattern
     doc = base_doc(["a+b", "c0"])
     cases.insert(0, {"kind": "history", "meta": True, "doc": doc, "ops": [
